@@ -59,6 +59,13 @@ Eigen::VectorXd gen_x(Tape& t, const OptD& opt, int N, int variant = 0) {
   Eigen::VectorXd x = x0;
   for (int i = 0; i < x.size(); ++i) x(i) += (i < N ? t.sym(8) / 32.0 : t.sym(32) / 32.0) + variant * ((i * 5 + variant) % 7 - 3) / 64.0;
   for (int i = 0; i < N; ++i) { int guard = 0; while (!(tm.toTime(x(i)) >= 0.05) && guard++ < 8) x(i) = 0.5 * (x(i) + x0(i)); if (!(tm.toTime(x(i)) >= 0.05)) x(i) = x0(i); }
+  // a fifth of the vectors decode to durations that are nearly, but not bit-, equal (differences 2^-21 ... 2^-44 relative; some
+  // exactly equal): anything cached per thread and keyed on "the same duration within a tolerance" depends on the schedule then
+  if (N >= 2 && t.chance(1, 5)) {
+    double T0 = tm.toTime(x(0));
+    int k = t.range(21, 44);
+    for (int i = 0; i < N; ++i) x(i) = tm.toTau(T0 * (1.0 + (t.range(0, 5) - 2) * std::ldexp(1.0, -k)));
+  }
   return x;
 }
 
@@ -153,6 +160,22 @@ void c12(Tape& t, Ctx& ctx) {
     EvalOut o = run_eval(opt, x, costs, w, OpenMPExecutor());
     VCHECK(ctx, same_out(serial, o), "schedule-dependent", who << ": OpenMPExecutor with " << nt << " threads is not bit-identical to serial execution: " << diff_out(serial, o));
     ctx.label("openmp:" + std::to_string(nt));
+    // the same executor used by several OpenMP threads at once (an outer parallel region: the inner team may then get fewer
+    // threads than omp_get_max_threads() says), each call with its own workspace
+    if (t.flag()) {
+      const int m = 2 + t.range(0, 2);
+      std::vector<EvalOut> outs((size_t)m);
+      std::vector<typename OptD::Workspace> wss((size_t)m);
+      std::vector<int> done((size_t)m, 0);
+#pragma omp parallel num_threads(m)
+      {
+        int id = omp_get_thread_num();
+        if (id < m) { outs[(size_t)id] = run_eval(opt, x, costs, wss[(size_t)id], OpenMPExecutor()); done[(size_t)id] = 1; }
+      }
+      for (int i = 0; i < m; ++i)
+        if (done[(size_t)i]) VCHECK(ctx, same_out(serial, outs[(size_t)i]), "schedule-dependent", who << ": OpenMPExecutor used from " << m << " OpenMP threads at once (outer parallel region, configured threads " << nt << "): call " << i << " is not bit-identical to serial execution: " << diff_out(serial, outs[(size_t)i]));
+      ctx.label("openmp:nested-callers");
+    }
   }
 #endif
   if (ctx.want_desc) ctx.desc << "], \"schedules_run\": " << nsched;
